@@ -425,10 +425,15 @@ func (cc *connectUnaryClientConn) validateResponse(response *http.Response) *Err
 				return &serverErr
 			}
 		}
-		return NewError(
+		// The response headers are the server's metadata whether or not its error
+		// payload could be read.
+		fallback := NewError(
 			connectHTTPToCode(response.StatusCode),
 			errors.New(response.Status),
 		)
+		fallback.meta = cc.responseHeader.Clone()
+		mergeHeaders(fallback.meta, cc.responseTrailer)
+		return fallback
 	}
 	cc.unmarshaler.compressionPool = cc.compressionPools.Get(compression)
 	return nil
